@@ -105,6 +105,20 @@ class TaskHandles(Rule):
         return text
 
 
+class TidLocals(Rule):
+    """every local `thread_id_ref_type NAME;` (default constructed = empty): RAII-lowered with tid_release(&NAME) at every exit
+    of its scope, and `std::move(NAME)` -> vx_move_tid(&NAME) (moving empties the source)."""
+    n = None
+
+    def apply(self, text):
+        names = set(re.findall(r"\bthread_id_ref_type\s+(\w+)\s*;", text))
+        for name in names:
+            text = re.sub(r"\bstd::move\(\s*%s\s*\)" % re.escape(name), "vx_move_tid(&%s)" % name, text)
+        if names:
+            text = Guard(r"\bthread_id_ref_type\s+(\w+)\s*;", r"thread_id_ref_type \1 = NULL;", r"tid_release(&\1);", None).apply(text)
+        return text
+
+
 def _counter(m):
     recv = m.group(2) or "self"
     return "atomic_%s_%s(%s)" % ("inc" if m.group(1) == "++" else "dec", m.group(3), recv)
@@ -151,8 +165,8 @@ H_TASKS = [
     MemberCall("new_tasks_", "pop", "nt_pop({recv}, &{0}, {1})"),
     MemberCall("new_tasks_", "push", "nt_push({recv}, {0})"),
 ]
-H_IDS = [
-    Sub(r"\bthread_id_ref_type\s+(\w+)\s*;", r"thread_id_ref_type \1 = NULL;", None),                       # default constructed id = empty
+H_IDS = [                                   # (after the rules that insert `return` statements: the guard follows them)
+    TidLocals(),
     Sub(r"\b(\w+)\.noref\(\)", r"\1", None),
 ]
 H_MAP = [
@@ -172,9 +186,8 @@ def H_LOCK_REF(name):        # a std::unique_lock passed by reference
 # ---------------------------------------------------------------------------------------------------------------
 # thread_queue::add_new -- two queue objects (receiver `self`, source `addfrom`)
 
-ADDNEW_RULES = [H_NS, H_STATE_ENUM, H_ERR_ENUM] + H_LOCK_REF("lk") + H_TASKS + H_IDS + H_MAP + H_COUNTERS + [
+ADDNEW_RULES = [H_NS, H_STATE_ENUM, H_ERR_ENUM, h_throw("0")] + H_LOCK_REF("lk") + H_TASKS + H_IDS + H_MAP + H_COUNTERS + [
     HCall0(r"(?<![\w.>])create_thread_object", "cto(self, &{0}, {1}, {2})"),
-    h_throw("0"),
     HCall0(r"(?<![\w.>])schedule_thread", _sched),
 ]
 ADDNEW_LOOP = """
@@ -192,6 +205,36 @@ HOPS_UNITS = [
              "decremented exactly once AFTER the pop (the counter of the queue it was popped from; the receiver's is untouched "
              "unless it is the source) and the thread is queued once in the receiver; a refused map insertion is an exception, "
              "never a silent drop; at most add_count conversions; the victim moves staged -> pending+map exactly once"),
+]
+
+# ---------------------------------------------------------------------------------------------------------------
+# thread_queue::create_thread
+
+H_UNIQUE_LOCK = Guard(r"\bstd::unique_lock<mutex_type>\s+(\w+)\(\s*mtx_\s*\)\s*;", r"struct ulock \1 = ulock_make(&self->mtx_);", r"ulock_dtor(&\1);", None)
+H_EC = [
+    HCall0(r"\bPIKA_THROWS_IF", "vx_throws_if({0}, {1})"),
+    Sub(r"&\s*ec\b", "ec", None),                                   # error_code& -> pointer
+    Sub(r"(?<![\w&.>*])ec\s*=(?!=)", "*ec =", None),
+]
+CREATE_RULES = [H_NS, H_STATE_ENUM, H_STACK_ENUM, H_ERR_ENUM, h_throw("")] + H_EC + [
+    H_UNIQUE_LOCK,
+    Sub(r"\blk\.unlock\(\)", "ulock_unlock(&lk)", None),
+    Sub(r"&\s*get_thread_id_data\((\w+)\)->get_queue<thread_queue>\(\)", r"td_get_queue(\1)", None),
+] + H_TASKS + H_IDS + H_MAP + H_COUNTERS + [
+    HCall0(r"(?<![\w.>])create_thread_object", "cto(self, &{0}, {1}, &{2})"),
+    HCall0(r"(?<![\w.>])schedule_thread", _sched),
+    H_THIS,
+]
+HOPS_UNITS += [
+    Unit("hops.tq.create_thread", H_DIR + "hops_create.c", defines=H_DEFS, enforce="create_thread",
+         lifts={"create_thread_body": Lift(H_TQ, r"void create_thread\(threads::detail::thread_init_data& data,\s*threads::detail::thread_id_ref_type\* id, error_code& ec\)",
+                                           rules=CREATE_RULES)},
+         funcs=[H_TQ + ": thread_queue::create_thread"], min_obligations=60,
+         doc="I+T: a new task takes exactly one of two roads: run_now -- one thread object made from the request with the requested "
+             "initial state, inserted once into thread_map_, thread_map_count_ +1 after the insertion, queued exactly once iff the "
+             "requested state is pending (else handed to the caller) -- or staged -- new_tasks_count_ +1 BEFORE one description is "
+             "allocated, constructed from the request and pushed once; otherwise an error is reported (map refused: out_of_memory, "
+             "nothing queued / staged; staged with a non-pending state: bad_parameter, nothing touched); lock released on every path"),
 ]
 
 HOPS_META = {
